@@ -190,6 +190,7 @@ STD_ENUMS = {
     'Either': ['Left', 'Right'], 'IpAddr': ['V4', 'V6'], 'Cow': ['Borrowed', 'Owned'],
     'Entry': ['Occupied', 'Vacant'],            # std::collections::hash_map::Entry, linked_hash_map::Entry
     'BTreeEntry': ['Vacant', 'Occupied'],       # std::collections::btree_map::Entry (declared in this order)
+    'JsonValue': ['Null', 'Bool', 'Number', 'String', 'Array', 'Object'],       # serde_json::Value (harnesses name it JsonValue: `Value` is also cedar's value type)
 }
 STD_ENUM_DISC = {'Ordering': {'Less': -1, 'Equal': 0, 'Greater': 1}}
 
